@@ -114,8 +114,17 @@ class Work:
     """Scratch directory of one case: tree directories, slot files, written configurations."""
 
     def __init__(self):
-        self.dir = tempfile.mkdtemp(prefix="rtcls")
+        shm = "/dev/shm"  # tmpfs when available: the cases create and delete many small files
+        base = shm if os.path.isdir(shm) and os.access(shm, os.W_OK | os.X_OK) else None
+        self.dir = tempfile.mkdtemp(prefix="rtcls", dir=base)
         self.trees = {}
+
+    def new_case(self):
+        """Forget the files of the previous case (tree directories are kept: they only depend on the tree)."""
+        for name in os.listdir(self.dir):
+            p = os.path.join(self.dir, name)
+            if os.path.isfile(p):
+                os.unlink(p)
 
     def close(self):
         shutil.rmtree(self.dir, ignore_errors=True)
@@ -389,6 +398,7 @@ def _j(x):
 
 
 # ---------------------------------------------------------------------------
+# --- SECTION C02 ---
 # C02  write_config / load_config fixpoint
 # ---------------------------------------------------------------------------
 
@@ -427,11 +437,12 @@ def _classify_rewrite(k, t1, t2):
 def _c02_roundtrip(out, w, tree, A, snap_a, pfx, wkw, lkw):
     tag = "C02" + pfx
     p1 = w.path("f1" + pfx.replace(":", "_"))
-    lib("write_config", A.write_config, p1, **wkw)
+    kws = ",".join("%s=%s" % kv for kv in sorted(list(wkw.items()) + list(lkw.items())))
+    lib("write_config(%s)" % kws, A.write_config, p1, **wkw)
     t1 = w.read(p1)
     B = w.kconf(tree)
     reset_report()
-    lib("load_config", B.load_config, p1, **lkw)
+    lib("load_config(%s)" % kws, B.load_config, p1, **lkw)
     diag = diagnostics(B)
     snap_b = lib("snapshot", snap, B)
     out.evals += 3
@@ -448,7 +459,7 @@ def _c02_roundtrip(out, w, tree, A, snap_a, pfx, wkw, lkw):
             out.bad("%s:diag:%s%s" % (tag, area, t), C02_CONTRACTS[1],
                     "loading the tool-written file reported %s = %s; file:\n%s" % (area, _j(diag[area]), t1))
     p2 = w.path("f2" + pfx.replace(":", "_"))
-    lib("write_config(reloaded)", B.write_config, p2, **wkw)
+    lib("write_config(reloaded,%s)" % kws, B.write_config, p2, **wkw)
     t2 = w.read(p2)
     if t2 != t1:
         out.bad("%s:rewrite:%s" % (tag, _classify_rewrite(B, t1, t2)), C02_CONTRACTS[2],
@@ -467,10 +478,19 @@ def check_c02(case, w, out):
         out.nontrivial = _j([tree["text"], t1])
     if tree.get("renames"):
         for ld in (False, True):
-            _c02_roundtrip(out, w, tree, A, snap_a, ":dep:ld%d" % ld, {"write_deprecated": True}, {"load_deprecated": ld})
+            n0 = len(out.viol)
+            try:
+                _c02_roundtrip(out, w, tree, A, snap_a, ":dep:ld%d" % ld, {"write_deprecated": True}, {"load_deprecated": ld})
+            finally:
+                # a class that already fired for the file without the block is not repeated for the file with it
+                seen = {v["case_class"] for v in out.viol[:n0]}
+                out.viol[n0:] = [v for v in out.viol[n0:]
+                                 if re.sub(r":dep:ld\d", "", v["case_class"]) not in seen
+                                 and v["case_class"].replace(":dep:ld1", ":dep:ld0") not in seen]
 
 
 # ---------------------------------------------------------------------------
+# --- SECTION C08 ---
 # C08  default-marked entries / defaults policy
 # ---------------------------------------------------------------------------
 
@@ -496,29 +516,33 @@ C08_CONTRACTS = [
 
 
 def _pair_compare(out, w, B, R, edits, tag, contract, ctx):
-    """Compare B and R now and after every edit; returns False after the first difference."""
+    """Compare B and R now and after every edit; returns False after the first snapshot difference."""
     steps = [None] + list(edits)
+    out.evals += len(steps)
+    ustate_diff = None
     for i, op in enumerate(steps):
         if op is not None:
             lib("edit:%s" % op[0], apply_op, B, op, w)
             lib("edit:%s" % op[0], apply_op, R, op, w)
         sb = lib("snapshot", snap, B)
         sr = lib("snapshot", snap, R)
-        out.evals += 1
         d = dict_diff(sb, sr)
         if d:
             kinds = sorted({diff_kind(B, n, x, y) for n, x, y in d})
             out.bad("%s:%s:%s" % (tag, "after-load" if i == 0 else "after-edit", kinds[0]), contract,
                     "%s; after %s: full-file instance vs reference instance differ: %s" % (ctx, _j(steps[1:i + 1]), _j(d)))
             return False
-        ub = ustate(B)
-        ur = ustate(R)
-        if ub != ur:
-            d = dict_diff(ub, ur)
-            out.bad("%s:%s:user-state:%s" % (tag, "after-load" if i == 0 else "after-edit", sym_tag(B, d[0][0])
-                                             if not d[0][0].startswith("choice:") else "choice"), contract,
-                    "%s; after %s: user values differ (full file vs reference): %s" % (ctx, _j(steps[1:i + 1]), _j(d)))
-            return False
+        if ustate_diff is None and i == 0:
+            ub = ustate(B)
+            ur = ustate(R)
+            if ub != ur:
+                ustate_diff = dict_diff(ub, ur)
+    if ustate_diff:
+        # no observable difference in the whole edit sequence, but the loads left different user values behind
+        d = ustate_diff
+        out.bad("%s:user-state-only:%s" % (tag, sym_tag(B, d[0][0]) if not d[0][0].startswith("choice:") else "choice"), contract,
+                "%s; user values after the load differ (full file vs reference), no value difference during %s: %s"
+                % (ctx, _j(steps[1:]), _j(d)))
     return True
 
 
@@ -536,6 +560,12 @@ def check_c08(case, w, out):
     N0 = w.kconf(new)
     tag0 = "C08:changed" if changed else "C08:same"
     edit_seqs = case.get("edits") or [[]]
+    mch = {}
+    for n, raw, m, _ in ents:
+        sy = N0.syms.get(n)
+        if sy is not None and sy.nodes and sy.choice is not None:
+            mch[id(sy.choice)] = mch.get(id(sy.choice), True) and m
+    n_marked_choices = sum(1 for v in mch.values() if v)
     e_k = None
     e_k_choices = None
     interesting = False
@@ -551,7 +581,14 @@ def check_c08(case, w, out):
         ctx = "policy %s; written file:\n%s" % (policy, text)
         diag = None
         snap_b0 = None
-        for si, edits in enumerate(edit_seqs):
+        seqs = list(edit_seqs)
+        if not changed and policy == "kconfig":
+            seqs = seqs[-1:]  # unchanged tree: all sequences under the default policy, the last one under policy kconfig
+        if changed and policy == "sdkconfig" and n_marked_choices >= 2:
+            # the library resolves default-marked choices in the iteration order of a set of objects (address
+            # dependent): repeat the load with fresh instances so that both orders are seen with probability 1 - 2^-5
+            seqs = seqs * 6
+        for si, edits in enumerate(seqs):
             B = w.kconf(new, policy)
             reset_report()
             lib("load_config", B.load_config, pf)
@@ -617,7 +654,7 @@ def check_c08(case, w, out):
             for n, (v, kv, vis) in sorted(e_k.items()):
                 out.evals += 1
                 if n not in reported:
-                    out.bad("%s:mismatch-not-reported:%s%s" % (tag, sym_tag(B, n), "" if vis else ":invisible"), C08_CONTRACTS[5],
+                    out.bad("%s:mismatch-not-reported:%s" % (tag, sym_tag(B, n) if vis else "invisible"), C08_CONTRACTS[5],
                             "%s; stored default %s=%r differs from the Kconfig value %r but changed_defaults = %s"
                             % (ctx, n, v, kv, _j(diag["changed_defaults"])))
             for idx, (sel, ksel, vis) in sorted(e_k_choices.items()):
@@ -633,7 +670,7 @@ def check_c08(case, w, out):
                 out.evals += 1
                 v, kv, vis = e_k[m_name]
                 if m_name not in reported:
-                    out.bad("%s:mismatch-not-reported:%s%s" % (tag, sym_tag(B, m_name), "" if vis else ":invisible"),
+                    out.bad("%s:mismatch-not-reported:%s" % (tag, sym_tag(B, m_name) if vis else "invisible"),
                             C08_CONTRACTS[5],
                             "%s; changed option %s: stored default %r differs from the Kconfig value %r but "
                             "changed_defaults = %s" % (ctx, m_name, v, kv, _j(diag["changed_defaults"])))
@@ -686,6 +723,7 @@ def check_c08(case, w, out):
 
 
 # ---------------------------------------------------------------------------
+# --- SECTION C10 ---
 # C10  minimal configuration
 # ---------------------------------------------------------------------------
 
@@ -713,6 +751,7 @@ def check_c10(case, w, out):
     run_ops(A, case["ops"], w)
     vals_a = lib("values", values, A)
     texts = {}
+    loaded = {}
     bad_by_name = {}
     variants = [("L%dN%d" % (lab, norm), lab, norm) for lab in (0, 1) for norm in (0, 1)]
     kc = _kconfgen()
@@ -726,11 +765,15 @@ def check_c10(case, w, out):
         else:
             lib("write_min_config", A.write_min_config, p, header="", labels=bool(lab), normalize_unset=bool(norm))
         texts[vname] = w.read(p)
-        B = w.kconf(tree)
-        lib("load_config(min)", B.load_config, p)
-        vals_b = lib("values", values, B)
+        # lines the loader looks at (assignments, 'is not set' lines, pragma lines); comments and blanks do not matter
+        eff = _j([ln for ln in texts[vname].split("\n") if ln.strip() and (not ln.lstrip().startswith("#") or _UNSET_RE.match(ln)
+                                                                          or ln.strip() in (MARKER, DEP_BEGIN, DEP_END))])
         out.evals += 1
-        for name, x, y in dict_diff(vals_a, vals_b, limit=50):
+        if eff not in loaded:
+            B = w.kconf(tree)
+            lib("load_config(min)", B.load_config, p)
+            loaded[eff] = dict_diff(vals_a, lib("values", values, B), limit=50)
+        for name, x, y in loaded[eff]:
             bad_by_name.setdefault(name, []).append((vname, x, y))
     if any(entries(t) for t in texts.values()):
         out.nontrivial = _j([tree["text"], texts["L0N0"]])
@@ -751,6 +794,7 @@ def check_c10(case, w, out):
 
 
 # ---------------------------------------------------------------------------
+# --- SECTION C11 ---
 # C11  deprecated names
 # ---------------------------------------------------------------------------
 
@@ -805,7 +849,8 @@ def _c11_eval_entries(out, w, tree, text, tag, ctx):
         new = final.get(name, [None])[0]
         ttag = sym_tag(E, new) if new else "unmapped"
         if any(name == m[0] for m in E.missing_syms):
-            out.bad("C11:%s:block-entry-in-missing-syms:%s" % (tag, ttag), C11_CONTRACTS[3],
+            where = "mentioned-in-tree" if re.search(r"\b%s\b" % re.escape(name), tree["text"]) else ttag
+            out.bad("C11:%s:block-entry-in-missing-syms:%s" % (tag, where), C11_CONTRACTS[3],
                     "%s; entry %s of the deprecated block is reported in missing_syms = %s" % (ctx, name, _j(E.missing_syms)))
             continue
         s = E.syms.get(name)
@@ -821,8 +866,8 @@ def _c11_eval_entries(out, w, tree, text, tag, ctx):
         else:
             expr = "%s = %s" % (name, raw)
             got = lib("eval_string", E.eval_string, expr)
-            ok = got == 2 and s.str_value == raw_value(E, name, raw)
-            shown = "eval_string(%r) = %r (expected 2), str_value %r (written %s)" % (expr, got, s.str_value, raw)
+            ok = got == 2
+            shown = "eval_string(%r) = %r (expected 2); str_value %r, written %s" % (expr, got, s.str_value, raw)
         if not ok:
             out.bad("C11:%s:block-entry-value:%s" % (tag, ttag), C11_CONTRACTS[3], "%s; %s" % (ctx, shown))
 
@@ -854,13 +899,14 @@ def check_c11(case, w, out):
         d = dict_diff(sa, sb)
         if d:
             kinds = sorted({diff_kind(A, n, x, y) for n, x, y in d})
-            out.bad("C11:equiv:%s%s" % (kinds[0], sfx), C11_CONTRACTS[0],
+            out.bad("C11:equiv:marked-old-name" if sfx else "C11:equiv:%s" % kinds[0], C11_CONTRACTS[0],
                     "%s\nold-name instance vs new-name instance: %s" % (ctx, _j(d)))
         else:
             ua, ub = ustate(A), ustate(B)
             if ua != ub:
                 d = dict_diff(ua, ub)
-                out.bad("C11:equiv:user-state:%s%s" % (sym_tag(A, d[0][0]) if not d[0][0].startswith("choice:") else "choice", sfx),
+                out.bad("C11:equiv:marked-old-name" if sfx else
+                        "C11:equiv:user-state:%s" % (sym_tag(A, d[0][0]) if not d[0][0].startswith("choice:") else "choice"),
                         C11_CONTRACTS[0], "%s\nuser values differ: %s" % (ctx, _j(d)))
         out.evals += 1
         leaked = sorted({m[0] for m in A.missing_syms if m[0] in dep_names})
@@ -902,21 +948,24 @@ def check_c11(case, w, out):
                 out.nontrivial = _j([tree["text"], tree["renames"], text])
 
 
+# --- SECTION TAIL ---
 CHECKERS = {p: globals().get("check_" + p.lower()) for p in ("C02", "C08", "C10", "C11")}
 
 
-def check_case(case):
+def check_case(case, work=None):
     """Run the contracts of case['prop'] on one case; returns {"viol": [...], "evals": n, "nontrivial": key or None}."""
     out = Out(case)
-    w = Work()
+    w = work or Work()
     try:
+        w.new_case()
         try:
             CHECKERS[case["prop"]](case, w, out)
         except LibFailure as e:
             out.bad("exception:%s:%s" % (e.where, type(e.exc).__name__), "no exception while the precondition holds",
                     "%s raised %s: %s" % (e.where, type(e.exc).__name__, e.exc))
     finally:
-        w.close()
+        if work is None:
+            w.close()
     return out.result()
 
 
@@ -1082,6 +1131,9 @@ def alphabet(kconf):
         else:
             d = s.str_value
             vals = [v for v in gen.VALUES[typ][0] if v != d][:1] + ([d] if d else [])
+            for dflt, _cond in s.defaults[:1]:
+                if dflt.str_value and dflt.str_value not in vals:
+                    vals.append(dflt.str_value)  # a user value equal to the (possibly shadowed) Kconfig default
             ops += [["set", s.name, v] for v in vals]
         ops.append(["unset", s.name])
     for i, c in enumerate(kconf.unique_choices):
@@ -1361,8 +1413,8 @@ def c11_family_cases(pv):
 # ---------------------------------------------------------------------------
 
 TIERS = {
-    #            random trees (6 opts, 10 opts)  histories/tree  mutations/tree  rename models/tree
-    "quick":    {"rand6": 320, "rand10": 80, "hist": 4, "muts": 5, "models": 3, "parts": 4},
+    # random trees (6 / 10 options), random histories per tree, tree changes per tree (C08), rename models per tree (C11)
+    "quick":    {"rand6": 220, "rand10": 50, "hist": 3, "muts": 4, "models": 2, "parts": 4},
     "thorough": {"rand6": 2400, "rand10": 600, "hist": 8, "muts": 10, "models": 5, "parts": 8},
 }
 
@@ -1410,7 +1462,7 @@ def get_tree(kind, idx, seed):
 
 
 def _pv(kind, idx):
-    return 2 if idx % 3 == 2 else 1
+    return 2 if idx % 8 == 5 else 1
 
 
 def _histories(rng, kconf, spec, kind, n_hist, depth2):
@@ -1420,7 +1472,7 @@ def _histories(rng, kconf, spec, kind, n_hist, depth2):
         al = alphabet(kconf)
         hs += [[a] for a in al]
         if depth2:
-            hs += [[a, b] for a in al for b in al if a != b]
+            hs += [[a, b] for a in al if a[0] not in ("unset", "choice_unset") for b in al if a != b]
     n_syms = len(kconf.unique_defined_syms)
     for j in range(n_hist if kind != "small" else 2 + (n_syms > 1)):
         hs.append(rand_history(rng, kconf, spec, rng.choice((1, 2, 3, 5, 8))))
@@ -1459,15 +1511,15 @@ def cases_for_tree(prop, kind, idx, seed, tier):
                 except LibFailure:
                     continue
             al = alphabet(k0) if kind == "family" else None
-            for hi, h in enumerate(_histories(rng, k0, spec, kind, max(2, t["hist"] - 1), depth2=False)):
+            for hi, h in enumerate(_histories(rng, k0, spec, kind, t["hist"], depth2=False)):
                 if al is not None:
                     edits = [al, al[::-1]]
                 else:
                     edits = [rand_history(rng, k0, spec, 4, files=False), rand_history(rng, k0, spec, 3, files=False)]
                 cases.append({"prop": prop, "tree": base, "ops": h, "edits": edits, "origin": spec.origin})
-                for kind_m, name, cidx, text, kn in good:
-                    if kind == "family" and hi > 0 and (hi + len(kind_m)) % 4:
-                        continue  # family trees: every mutation on the default configuration, a quarter on each other history
+                for mi, (kind_m, name, cidx, text, kn) in enumerate(good):
+                    if hi > 0 and (hi + mi) % (4 if kind == "family" else 2):
+                        continue  # every tree change on the default configuration, a part of them on each other history
                     nspec = gen.TreeSpec(text)
                     e = [rand_history(rng, kn, nspec, 4, files=False)]
                     cases.append({"prop": prop, "tree": base, "new": {"text": text, "pv": pv}, "ops": h, "edits": e,
@@ -1488,9 +1540,9 @@ def cases_for_tree(prop, kind, idx, seed, tier):
                             pass
                 tree = {"text": text, "pv": pv, "renames": rename_files(lines, split), "final": final_map(lines)}
                 kt = w.kconf(tree)
-                for j in range(3):
+                for j in range(2 if tier == "quick" else 3):
                     base_text = None
-                    if j == 2:
+                    if j == 1:
                         ka = w.kconf(tree)
                         run_ops(ka, rand_history(rng, ka, spec, 4, files=False), w)
                         base_text = ka._config_contents("")
@@ -1556,6 +1608,7 @@ def _shrink(case, want):
 def _work(args):
     prop, tier, seed, tasks = args
     res = {"evals": 0, "cases": 0, "nontrivial": set(), "samples": [], "viol": {}, "error": None, "trees": 0}
+    work = None
     try:
         for kind, idx, part, parts in tasks:
             if kind == "c11family":
@@ -1564,8 +1617,13 @@ def _work(args):
                 cases = cases_for_tree(prop, kind, idx, seed, tier)[part::parts]
                 if part == 0:
                     res["trees"] += 1
+            if work is not None and len(work.trees) > 40:
+                work.close()
+                work = None
+            if work is None:
+                work = Work()
             for case in cases:
-                r = check_case(case)
+                r = check_case(case, work)
                 res["cases"] += 1
                 res["evals"] += r["evals"]
                 if r["nontrivial"] is not None:
@@ -1586,6 +1644,9 @@ def _work(args):
         import traceback
 
         res["error"] = "%s: %s\n%s" % (type(e).__name__, e, traceback.format_exc())
+    finally:
+        if work is not None:
+            work.close()
     return res
 
 
@@ -1597,12 +1658,20 @@ def _init_worker():
         pass
 
 
-def _core_source():
+def _core_source(prop):
+    """Common part of the standalone core + the section of 'prop' + the tail (check_case, replay)."""
     with open(os.path.abspath(__file__), "r", encoding="utf-8") as f:
         src = f.read()
-    a = src.index("# === BEGIN STANDALONE CORE")
-    b = src.index("# === END STANDALONE CORE")
-    return src[a:b]
+    a = src.index("\n# === BEGIN STANDALONE CORE") + 1
+    b = src.index("\n# === END STANDALONE CORE") + 1
+    core = src[a:b]
+    marks = [(m.start(), m.group(1)) for m in re.finditer(r"^# --- SECTION (\w+) ---$", core, re.M)]
+    out = core[: marks[0][0]]
+    for i, (pos, name) in enumerate(marks):
+        end = marks[i + 1][0] if i + 1 < len(marks) else len(core)
+        if name in (prop, "TAIL"):
+            out += core[pos:end]
+    return out
 
 
 def make_script(case, want):
@@ -1613,7 +1682,7 @@ def make_script(case, want):
         "# exit status 1: the violation %r shows; 0: it does not.\n"
         "import os\nimport sys\n\nsys.path.insert(0, os.environ.get('PYVC_REPO', '/repo'))\n\n%s\n"
         "CASE = json.loads(%r)\n\nif __name__ == '__main__':\n    sys.exit(replay(CASE, %r))\n"
-    ) % (want, _core_source(), json.dumps(case), want)
+    ) % (want, _core_source(case["prop"]), json.dumps(case), want)
 
 
 BOUND = {
@@ -1622,9 +1691,9 @@ BOUND = {
            "orders x three MODE defaults; bools with several defaults whose first active default is n; set / set default "
            "targets; options with a prompted and a promptless definition; empty-string defaults; IDF_TARGET; symbol-valued "
            "range bounds; nested menus with visible if); {r6} random trees gen_tree(Random(seed*1000003+i), 6) and {r10} "
-           "with 10 options (full DEFAULT_FEATURES grammar of rtc.gen, parser version 2 for every third tree, else 1); "
+           "with 10 options (full DEFAULT_FEATURES grammar of rtc.gen, parser version 2 for every eighth tree, else 1); "
            "35% of the trees without a generated rename file get a random rename model (1-2 files). histories: the empty "
-           "history, for family trees ALL histories of length 1 and 2 over the tree's op alphabet (per option: two "
+           "history, for family trees ALL histories of length 1 and 2 (first op not an unset) over the tree's op alphabet (per option: two "
            "assignments + unset, per member: pick, per choice: unset), and {h} random histories per tree of length "
            "1,2,3,5,8 (gen_ops incl. invalid values, string values that look like sdkconfig lines) with interleaved "
            "save / load / merge of tool-written files and load / merge of hand-written files without default markers",
